@@ -50,6 +50,7 @@ Definition reserved (s : string) : bool :=
   || String.eqb s "clamp_arg".
 
 Definition is_int_lit (e : sexpr) : bool := match e with XInt _ _ => true | _ => false end.
+Definition is_var (e : sexpr) : bool := match e with XVar _ _ => true | _ => false end.
 
 Fixpoint ty_of (e : sexpr) : sty :=
   match e with
@@ -83,7 +84,9 @@ Fixpoint wt (e : sexpr) : bool :=
   | XAnd a b | XOr a b => wt a && wt b && sty_eqb (ty_of a) SBool && sty_eqb (ty_of b) SBool
   | XNot a => wt a && sty_eqb (ty_of a) SBool
   | XNeg T ic a => int_ok T && nsigned T && wt a && sty_eqb (ty_of a) (SInt T) && (negb ic || is_int_lit a)
+  (* a branch that is a bare variable makes parse_IfExp select between *locations* (or copy to memory): outside LIR *)
   | XIf c a b => wt c && wt a && wt b && sty_eqb (ty_of c) SBool && sty_eqb (ty_of a) (ty_of b)
+                 && negb (is_var a) && negb (is_var b)
   end.
 
 (* ---------------- source meaning ---------------- *)
